@@ -22,6 +22,7 @@ from simkit.vtime import VT
 PROP = "C18"
 ENGINE = "netsim"
 LEVEL = "exploration"
+HANG_WATCHDOG = True  # (no simulator threads: a run that does not come back is a violation, see simkit.runner.run_guarded)
 TIERS = {
     "quick": {"runs": 200000, "budget_s": 75},
     "thorough": {"runs": 2500000, "budget_s": 1500},
